@@ -1,6 +1,6 @@
 //@host src/lib.rs
-//@config dev,std_relcheck,std_nocheck,libm_check,libm_nocheck,micromath_check,micromath_nocheck
-//@quickconfigs dev,std_nocheck,libm_nocheck,libm_check
+//@config dev,std_relcheck,std_nocheck,libm_check,libm_nocheck,micromath_check,micromath_nocheck,rel_check,rel_default
+//@quickconfigs dev,std_nocheck,libm_nocheck,libm_check,rel_check
 // C19: the cfg-dependent items of the crate (Unit and its methods, From<PositionDerivative> for Unit, Quantity::abs,
 // PartialEq for Quantity, the State setters and Time/DimensionlessInteger::try_from that consult a unit, powf) are
 // re-proved against the SAME value contracts in every feature configuration: the contracts are functions of the raw
